@@ -239,7 +239,7 @@ func run(c *mc.Ctx) {
 			return b
 		},
 		func(n int) []byte { // the base point encoding, repeated
-			return append([]byte{}, bytes.Repeat(benc, 3)[:n]...)
+			return append([]byte{}, bytes.Repeat(benc, 10)[:n]...)
 		},
 		func(n int) []byte { // identity encoding, truncated or 0-extended (nil for n = 0)
 			if n == 0 {
